@@ -57,6 +57,19 @@ Theorem c10_dest_ready_inv : forall pkt s a b,
 Proof. exact dest_ready_inv. Qed.
 Print Assumptions c10_dest_ready_inv.
 
+(* sender (after the F28 repair): the same invariant, kept by every API call whether it returns or raises,
+   and true of a fresh handler *)
+Definition ready_inv_s (s : src) : Prop := s_ready s = zlen (s_queue s).
+Theorem c10_source_ready_inv : forall pkt p a b s,
+  ready_inv_s s ->
+  ready_inv_s (fst (state_machine_s pkt s)) /\ ready_inv_s (fst (put_request p s)) /\
+  ready_inv_s (fst (get_next_packet_s s)) /\ ready_inv_s (fst (cancel_request_s a b s)) /\ ready_inv_s (fst (reset_s s)).
+Proof. exact source_ready_inv. Qed.
+Print Assumptions c10_source_ready_inv.
+Theorem c10_source_ready_inv_init : forall c seq0 bits, ready_inv_s (src_init c seq0 bits).
+Proof. exact source_ready_inv_init. Qed.
+Print Assumptions c10_source_ready_inv_init.
+
 (* get_next_packet never raises *)
 Theorem c10_get_never_raises : forall s sd,
   (exists r, snd (get_next_packet_s s) = Ok r) /\ (exists r, snd (Dest.get_next_packet sd) = Ok r).
